@@ -75,6 +75,12 @@ def run(spec):
     T.relation("eq", lambda a, b: a == b)
     T.relation("ne", lambda a, b: a != b)
     T.relation("mem", lambda a, b: Elem(a) in b)
+
+    def fresh(sp):
+        # a new, short-lived object equal to sp (membership must not depend on object identity / earlier queries)
+        return DirectionalSobolevSpace(tuple(sp._orders)) if isinstance(sp, DirectionalSobolevSpace) else sp
+
+    T.relation("memt", lambda a, b: Elem(fresh(a)) in fresh(b))
     npre = len(PRE) if not isinstance(spec["n"], tuple) else 0
     truth = [f"(and (= i {i}) (= j {j}))" for i, a in enumerate(PRE) for j, b in enumerate(PRE) if b.name in ancestors(a.name)] \
         if npre else []
@@ -96,6 +102,7 @@ def run(spec):
         "eq-congruence-left": (3, f"(and {ok3} (eq a b) (lt b c) (not (lt a c)))"),
         "eq-congruence-right": (3, f"(and {ok3} (eq a b) (lt c a) (not (lt c b)))"),
         "membership": (2, f"(and {ok2} (not (mem_err a b)) (not (= (mem a b) (le a b))))"),
+        "membership-object-independent": (2, "(and (not (mem_err a b)) (not (memt_err a b)) (not (= (mem a b) (memt a b))))"),
         "predefined-ground-truth": (2, f"(and (< a {npre}) (< b {npre}) (not (= (lt a b) (sub a b))))"),
         "no-errors-among-predefined": (2, f"(and (< a {npre}) (< b {npre}) (or (lt_err a b) (gt_err a b) (le_err a b) (ge_err a b) (eq_err a b) (mem_err a b)))"),
     }
